@@ -8,7 +8,8 @@
     - [tool_verdict]: printReproducePCR0Result
       (cmd/exp/pcr0tool/commands/sum/command.go), the only consumer of a
       ReproducePCR0Result in the repository: it applies the result to the
-      command log, replays the amended log on a fresh TPM and prints either
+      command log (corrected ACM_POLICY_STATUS, order swaps, disabled
+      measurements), replays the amended log on a fresh TPM and prints either
       "Resulting PCR0: ..." or "internal error: replayed PCR0 does not match
       the expected one; the information above could not be trusted".
 
@@ -39,29 +40,59 @@ Section Tool.
     | _ :: t => filter_log alg (S i) t
     end.
 
-  (** ** printReproducePCR0Result *)
+  (** ** printReproducePCR0Result (as repaired by /repo 00d338a and 84ad407) *)
 
-  (** the loop that builds [resultCommandLog]: an entry is kept unless it is one
-      of the DisabledMeasurements ([dis]: their positions in the command log; the
-      Go code finds them by address), a CommandEventLogAdd, a CommandInit that is
-      not the very first entry or has another locality than the reported one, a
-      CommandExtend on another PCR or bank *)
-  Definition tool_keeps (alg loc : Z) (dis : list nat) (i : nat) (c : lcmd) : bool :=
-    negb (mem_nat i dis) &&
+  Variable pcr0data : Z -> Z -> D.
+
+  (** the loop that builds [resultEntries] (pointers into the command log; the
+      model keeps the position with the entry): an entry is kept unless it is a
+      CommandEventLogAdd, a CommandInit that is not the very first entry or has
+      another locality than the reported one, a CommandExtend on another PCR or
+      bank.  The disabled measurements are still among the entries. *)
+  Definition tool_keeps (alg loc : Z) (i : nat) (c : lcmd) : bool :=
     match c with
     | LLog => false
     | LInit l => Nat.eqb i 0 && (l =? loc)
     | LExt p a _ => (p =? 0) && (a =? alg)
     end.
 
-  Fixpoint tool_kept (alg loc : Z) (dis : list nat) (i : nat) (l : list lcmd) : list lcmd :=
+  Fixpoint tool_entries (alg loc : Z) (i : nat) (l : list lcmd) : list (nat * lcmd) :=
     match l with
     | [] => []
-    | c :: t => if tool_keeps alg loc dis i c then c :: tool_kept alg loc dis (S i) t
-                else tool_kept alg loc dis (S i) t
+    | c :: t => if tool_keeps alg loc i c then (i, c) :: tool_entries alg loc (S i) t
+                else tool_entries alg loc (S i) t
     end.
 
   Definition is_linit (c : lcmd) : bool := match c with LInit _ => true | _ => false end.
+
+  (** [if result.ACMPolicyStatus != nil]: the first entry that is not disabled
+      ([dis]: positions in the command log of the DisabledMeasurements; the Go
+      code finds them by address) and is not the TPMInit entry is replaced by a
+      fresh entry -- same position, i.e. enabled like the one it replaces --
+      whose digest is the hash of the PCR0_DATA bytes of its cause with the
+      register [v] in the first 8 bytes.  [None]: the entry is not a measurement
+      of such data ("unable to apply the corrected ACM_POLICY_STATUS", logged; the
+      function returns). *)
+  Fixpoint tool_correct (alg : Z) (dis : list nat) (v : Z) (es : list (nat * lcmd))
+    : option (list (nat * lcmd)) :=
+    match es with
+    | [] => Some []
+    | (i, c) :: t =>
+        if mem_nat i dis || is_linit c then
+          match tool_correct alg dis v t with
+          | Some t' => Some ((i, c) :: t')
+          | None => None
+          end
+        else
+          match c with
+          | LExt _ _ m =>
+              match m_data m with
+              | Some (tail, _) => Some ((i, LExt 0 alg (mkMeas (pcr0data tail v) (m_data m))) :: t)
+              | None => None
+              end
+          | _ => None
+          end
+    end.
 
   (** [s[a], s[b] = s[b], s[a]] on a Go slice: an index out of range panics *)
   Definition swap_strict {A} (a b : nat) (l : list A) : option (list A) :=
@@ -101,22 +132,35 @@ Section Tool.
   Inductive tverdict : Type :=
   | TVOk          (* "Resulting PCR0: <the expected value>" *)
   | TVMismatch    (* "internal error: replayed PCR0 does not match the expected one ..." *)
-  | TVSilent      (* neither line: dummyTPM.PCRValues.Get failed, the error is logged *)
+  | TVSilent      (* neither line: an error is logged and the function returns *)
   | TVPanic.      (* ApplyOrderSwaps: index out of range *)
 
-  (** the whole function: the register of the result is only printed, never
-      applied; the swaps are applied to the kept entries (the TPMInit entry, if
-      kept, is one of them); TPMInit(reported locality) is executed first unless
-      the kept entries hold the log's own TPMInit *)
+  (** the whole function: entries; corrected PCR0_DATA; the swaps, applied to the
+      entries behind the log's own TPMInit (if that is kept, it is element 0);
+      the disabled entries dropped; TPMInit(reported locality) executed first
+      unless the log's own is among the entries; replay; comparison *)
   Definition tool_verdict (alg : Z) (cmds : list lcmd) (target : D)
-             (loc : Z) (dis : list nat) (sw : swaps) : tverdict :=
-    let kept := tool_kept alg loc dis 0 cmds in
-    match apply_swaps_strict sw kept with
-    | None => TVPanic
-    | Some l =>
-        match tool_run l (if existsb is_linit kept then None else Some (pcr_init loc)) with
-        | None => TVSilent
-        | Some p => if deqb p target then TVOk else TVMismatch
+             (loc : Z) (reg : option Z) (dis : list nat) (sw : swaps) : tverdict :=
+    let es := tool_entries alg loc 0 cmds in
+    let has_init := existsb (fun e => is_linit (snd e)) es in
+    match (match reg with Some v => tool_correct alg dis v es | None => Some es end) with
+    | None => TVSilent
+    | Some es1 =>
+        let swapped :=
+          if has_init then
+            match es1 with
+            | h :: t => match apply_swaps_strict sw t with Some t' => Some (h :: t') | None => None end
+            | [] => Some []
+            end
+          else apply_swaps_strict sw es1 in
+        match swapped with
+        | None => TVPanic
+        | Some es2 =>
+            let l := map snd (filter (fun e => negb (mem_nat (fst e) dis)) es2) in
+            match tool_run l (if has_init then None else Some (pcr_init loc)) with
+            | None => TVSilent
+            | Some p => if deqb p target then TVOk else TVMismatch
+            end
         end
     end.
 
